@@ -202,7 +202,10 @@ func (valdec mapDecoder) decodeObjectAsMap(dec *Decoder, p interface{}, tag byte
 		return
 	}
 	index := dec.ReadInt()
-	structInfo := dec.getStructInfo(index)
+	structInfo, ok := dec.getStructInfo(index)
+	if !ok {
+		return
+	}
 	mp := reflect2.PtrOf(p)
 	count := len(structInfo.names)
 	valdec.t.UnsafeSet(mp, valdec.t.UnsafeMakeMap(count))
